@@ -189,10 +189,14 @@ func registerHarnesses() {
 		}
 	}
 	// C18: Backup concurrent with two writers whose records land in different segments
-	for _, mode := range []int{core.KV, core.K, core.S} {
-		mode := mode
-		harnesses["C18/backup/"+modeName(mode)] = func() *harness {
-			return &harness{name: "C18", cfg: core.Cfg{Mode: mode, Seg: 100}, ndb: 1, classes: append(classesFor(mode), "fs-copy"),
+	for _, mr := range [][2]int{{core.KV, core.F}, {core.K, core.F}, {core.S, core.F}, {core.KV, core.M}, {core.K, core.M}} {
+		mode, rw := mr[0], mr[1]
+		hname := "C18/backup/" + modeName(mode)
+		if rw == core.M {
+			hname += "-mmap"
+		}
+		harnesses[hname] = func() *harness {
+			return &harness{name: "C18", cfg: core.Cfg{Mode: mode, RW: rw, Start: rw, Seg: 100}, ndb: 1, classes: append(classesFor(mode), "fs-copy"),
 				setup:   []core.Op{up(put("k1", "0"))},
 				queries: kvQueries("k1", "k2", "k3", "k4"),
 				threads: []hthread{
